@@ -632,6 +632,54 @@ def want_check(ctx):
     return True
 
 
+def integrate_source():
+    """The point-set routines of compmech/integrate/integrate.pyx AS WRITTEN IN THE SOURCE, made executable: the small Cython subset
+    they use is rewritten to Python (declarations dropped, C integer division kept, pointers -> arrays).  The in-tree binary cannot be
+    rebuilt here, so an edit of the .pyx is visible only through this reading.  Raises on anything outside the recognised subset."""
+    import re
+    import numpy as np
+    src = open(os.path.join(common.REPO, 'compmech', 'integrate', 'integrate.pyx')).read()
+    if 'cdivision=True' not in src:
+        raise RuntimeError('integrate.pyx: the cdivision directive changed')
+    out, ints, keep = [], set(), False
+    for line in src.split('\n'):
+        st = line.strip()
+        m = re.match(r'^(cdef\s+void|def)\s+(\w+)\((.*)$', line)
+        if m:
+            keep = m.group(2) in ('trapz_quad', 'trapz2d_points', 'simps2d_points', 'python_trapz_quad')
+            ints = set()
+        if not line.startswith((' ', '\t')) and st and not m:
+            keep = False
+        if not keep:
+            continue
+        if re.match(r'^\s+cdef\s+int\s', line):
+            ints |= set(x.strip() for x in st.split('int', 1)[1].split(','))
+            continue
+        if re.match(r'^\s+cdef\s+double\s', line):
+            continue
+        for nm in re.findall(r'\bint\s+(\w+)', line):
+            ints.add(nm)
+        line = re.sub(r'^cdef\s+void\s+', 'def ', line)
+        line = re.sub(r'\)\s*nogil\s*:', '):', line)
+        line = re.sub(r'\bdouble\s*\[:\]\s*', '', line)
+        line = re.sub(r'\bdouble\s*\*\s*', '', line)
+        line = re.sub(r'\b(double|int)\s+(?=\w)', '', line)
+        line = re.sub(r'&(\w+)\[0\]', r'\1', line)
+        line = re.sub(r'with\s+nogil\s*:', 'if True:', line)
+        m2 = re.match(r'^(\s*)(\w+)\s*/=\s*(.+)$', line)
+        if m2 and m2.group(2) in ints:
+            line = '%s%s //= %s' % m2.groups()
+        if re.search(r'\bcdef\b|<\w+\s*\*?>', line):
+            raise RuntimeError('integrate.pyx: statement outside the recognised subset: ' + st)
+        out.append(line)
+    ns = dict(np=np, DOUBLE=np.float64)
+    exec(compile('\n'.join(out), 'integrate.pyx(source)', 'exec'), ns)
+    for k in ('trapz2d_points', 'simps2d_points', 'python_trapz_quad'):
+        if k not in ns:
+            raise RuntimeError('integrate.pyx: function %s not found' % k)
+    return ns['trapz2d_points'], ns['simps2d_points'], ns['python_trapz_quad']
+
+
 def integrate_check(ctx):
     import numpy as np
     try:
@@ -640,6 +688,45 @@ def integrate_check(ctx):
         ctx.notes.append('compmech.integrate not importable: %r' % (e,))
         return
     rng = ctx.rng
+    # ---- T (source reading): the routines as written in integrate.pyx, executed, must agree with the compiled extension on every
+    #      case below; where they do not, the property is judged on the source reading (the binary is stale w.r.t. an edited source)
+    try:
+        src_fns = integrate_source()
+    except Exception as e:
+        ctx.violation('integrate.pyx can no longer be read by the source-level tie (%s)' % e, dict(tie='integrate.pyx source reading'),
+                      found_input=False)
+        return
+    for (nx, ny) in [(2, 2), (3, 5), (4, 10), (20, 6), (5, 12), (2, 9), (7, 8), (1, 1), (1, 6), (13, 4)] + \
+            [(rng.randint(1, 16), rng.randint(1, 16)) for _ in range(ctx.scale(10, 80))]:
+        b = [rng.uniform(-3, 0), rng.uniform(0.1, 3), rng.uniform(-3, 0), rng.uniform(0.1, 3)]
+        for name, fs, fc in (('trapz2d_points', src_fns[0], trapz2d_points), ('simps2d_points', src_fns[1], simps2d_points)):
+            if name == 'trapz2d_points' and (nx < 2 or ny < 2):
+                continue
+            ctx.evaluations += 1
+            a_ = [np.asarray(v) for v in fs(b[0], b[1], nx, b[2], b[3], ny)]
+            c_ = [np.asarray(v) for v in fc(b[0], b[1], nx, b[2], b[3], ny)]
+            if any(x.shape != y.shape for x, y in zip(a_, c_)) or any(np.abs(x - y).max() > 1e-13 * max(np.abs(y).max(), 1e-300) for x, y in zip(a_, c_)):
+                xs, ys, al, be = a_
+                area = (b[1] - b[0]) * (b[3] - b[2])
+                call = 'integrate.pyx (source) %s(%r, %r, %d, %r, %r, %d)' % (name, b[0], b[1], nx, b[2], b[3], ny)
+                if abs(float((al * be).sum()) - area) > 1e-10 * area:
+                    ctx.violation('C10 fails on the source as written: %s - the weights sum to %r, the domain area is %r (the running '
+                                  'binary is stale w.r.t. this source)' % (call, float((al * be).sum()), area), dict(source_call=call))
+                else:
+                    ctx.violation('the source of %s and the compiled extension give different point sets (%s); the hand model is tied to '
+                                  'the binary only' % (name, call), dict(source_call=call), found_input=False)
+                return
+    for k in (2, 3, 5, 9):
+        xa, wa, xb, wb = np.zeros(k), np.zeros(k), np.zeros(k), np.zeros(k)
+        src_fns[2](k, xa, wa)
+        python_trapz_quad(k, xb, wb)
+        if np.abs(xa - xb).max() > 1e-15 or np.abs(wa - wb).max() > 1e-15:
+            bad = abs(wa.sum() - 2) > 1e-12
+            ctx.violation(('C10 fails on the source as written: trapz_quad(%d) weights sum to %r' % (k, float(wa.sum()))) if bad else
+                          'the source of trapz_quad and the compiled extension differ for n = %d' % k,
+                          dict(source_call='trapz_quad(%d)' % k), found_input=bad)
+            return
+    ctx.cov['integrate_source_reading'] = 'trapz_quad, trapz2d_points, simps2d_points executed from integrate.pyx and compared with the binary'
     # ---- H: hand model Model/Integrate.lean (through the driver) vs the compiled extension, point by point, in order
     cases = [(2, 2), (2, 3), (3, 2), (1, 1), (1, 4), (4, 1), (5, 7), (8, 6)] + \
             [(rng.randint(1, 14), rng.randint(1, 14)) for _ in range(ctx.scale(8, 60))]
